@@ -139,19 +139,29 @@ def dlonOf (n i : Nat) : ℚ := 360 / ((max (n - i) 1 : ℕ) : ℚ)
 def budget (n i : Nat) (s : ℚ) : ℚ :=
   (mPerDeg * (dlat i / s)) ^ 2 + (cosUB n + 1 / 2000000) * cosUB n * (mPerDeg * (dlonOf n i / s)) ^ 2
 
-theorem budget_air0 (n : Nat) (h1 : 1 ≤ n) (h59 : n ≤ 59) : budget n 0 262144 ≤ (9628 / 1000) ^ 2 := by
-  unfold budget dlonOf mPerDeg
-  rw [dlat0]; interval_cases n <;> norm_num [cosUB]
+/-- bound of the chord (and, + 1 mm, of the great-circle distance) in metres: 9.628 m in the two polar bands
+    (NL ≤ 2, |lat| ≥ 86.535°, a single or two longitude zones), 6.25 m elsewhere -/
+def chordMax (n : Nat) : ℚ := if 3 ≤ n then 625 / 100 else 9628 / 1000
 
-theorem budget_air1 (n : Nat) (h1 : 1 ≤ n) (h59 : n ≤ 59) : budget n 1 262144 ≤ (9628 / 1000) ^ 2 := by
+theorem budget_air0 (n : Nat) (h1 : 1 ≤ n) (h59 : n ≤ 59) : budget n 0 262144 ≤ chordMax n ^ 2 := by
   unfold budget dlonOf mPerDeg
-  rw [dlat1]; interval_cases n <;> norm_num [cosUB]
+  rw [dlat0]; interval_cases n <;> norm_num [cosUB, chordMax]
+
+theorem budget_air1 (n : Nat) (h1 : 1 ≤ n) (h59 : n ≤ 59) : budget n 1 262144 ≤ chordMax n ^ 2 := by
+  unfold budget dlonOf mPerDeg
+  rw [dlat1]; interval_cases n <;> norm_num [cosUB, chordMax]
 
 theorem budget_air (n : Nat) (h1 : 1 ≤ n) (h59 : n ≤ 59) (i : Nat) (hi : i ≤ 1) :
-    budget n i 262144 ≤ (9628 / 1000) ^ 2 := by
+    budget n i 262144 ≤ chordMax n ^ 2 := by
   interval_cases i
   · exact budget_air0 n h1 h59
   · exact budget_air1 n h1 h59
+
+theorem chordMax_le (n : Nat) : chordMax n ≤ 9628 / 1000 := by
+  unfold chordMax; split <;> norm_num
+
+theorem chordMax_pos (n : Nat) : 0 < chordMax n := by
+  unfold chordMax; split <;> norm_num
 
 /-- per-axis east-west budget: 9.27 m in the two polar bands (NL ≤ 2, |lat| ≥ 86.535°), 5.68 m elsewhere -/
 def ewMax (n : Nat) : ℚ := if 3 ≤ n then 568 / 100 else 927 / 100
@@ -272,3 +282,101 @@ theorem close_sphere (i : Nat) (hi : i ≤ 1) (s : ℚ) (hs : 262144 ≤ s) (lat
     _ = (6399594 : ℝ) ^ 2 * (A * (π / 180)) ^ 2
           + (c + A * (π / 180)) * c * ((6399594 : ℝ) ^ 2 * (B * (π / 180)) ^ 2) := by ring
     _ ≤ _ := add_le_add t1 t4
+
+open Real Rs1090.Proofs.Geo in
+/-- chord and great-circle distance from a budget: `budget ≤ S²`, `0 ≤ S ≤ 10` ⇒ chord ≤ S, arc ≤ S + 1 mm -/
+theorem sphere_dist (i : Nat) (hi : i ≤ 1) (s : ℚ) (hs : 262144 ≤ s) (lat lon rl ro : ℚ) (k : ℤ)
+    (hlat : |lat| ≤ 90) (hrl : |rl| ≤ 90) (hA : |rl - lat| ≤ dlat i / s)
+    (hB : |ro - (lon + 360 * k)| ≤ dlonOf (NL rl) i / s)
+    (S : ℚ) (hS0 : 0 ≤ S) (hS10 : S ≤ 10) (hbud : budget (NL rl) i s ≤ S ^ 2) :
+    chordDist 6399594 (rad lat) (rad lon) (rad rl) (rad ro) ≤ (S : ℝ) ∧
+    gcDist 6399594 (rad lat) (rad lon) (rad rl) (rad ro) ≤ (S : ℝ) + 1 / 1000 := by
+  have h := close_sphere i hi s hs lat lon rl ro k hlat hrl hA hB
+  have hb : ((budget (NL rl) i s : ℚ) : ℝ) ≤ (S : ℝ) ^ 2 := by exact_mod_cast hbud
+  have hS : (6399594 : ℝ) ^ 2 * chordSq (rad lat) (rad lon) (rad rl) (rad ro) ≤ (S : ℝ) ^ 2 :=
+    le_trans h hb
+  have hS0' : (0 : ℝ) ≤ S := by exact_mod_cast hS0
+  have hS10' : (S : ℝ) ≤ 10 := by exact_mod_cast hS10
+  refine ⟨chordDist_le _ _ _ _ _ _ (by norm_num) hS0' hS, ?_⟩
+  apply gcDist_le 6399594 ((S : ℝ) + 1 / 1000) S _ _ _ _ (by norm_num) (by linarith) (by linarith) hS0' hS
+  have h3 : ((S : ℝ) + 1 / 1000) ^ 3 ≤ 11 ^ 3 := pow_le_pow_left₀ (by linarith) (by linarith) 3
+  have h4 : ((S : ℝ) + 1 / 1000) ^ 3 / (24 * 6399594 ^ 2) ≤ 11 ^ 3 / (24 * 6399594 ^ 2) :=
+    div_le_div_of_nonneg_right h3 (by norm_num)
+  have h5 : (11 : ℝ) ^ 3 / (24 * 6399594 ^ 2) ≤ 1 / 1000 := by norm_num
+  linarith
+
+/-! ### the two axes in metres (ℚ, no transcendental function) -/
+
+theorem mPerDeg_pos : 0 < mPerDeg := by unfold mPerDeg; norm_num
+
+/-- per-axis lengths and their Euclidean combination are within the budget -/
+theorem axes_le (n i : Nat) (h1 : 1 ≤ n) (h59 : n ≤ 59) (s dA dB : ℚ)
+    (hA : |dA| ≤ dlat i / s) (hB : |dB| ≤ dlonOf n i / s) :
+    nsM dA ≤ mPerDeg * (dlat i / s) ∧ ewM n dB ≤ mPerDeg * cosUB n * (dlonOf n i / s) ∧
+    nsM dA ^ 2 + ewM n dB ^ 2 ≤ budget n i s := by
+  have hK := mPerDeg_pos
+  have hc := cosUB_nonneg n h1 h59
+  have a0 := abs_nonneg dA
+  have b0 := abs_nonneg dB
+  have e1 : nsM dA ≤ mPerDeg * (dlat i / s) := mul_le_mul_of_nonneg_left hA hK.le
+  have e2 : ewM n dB ≤ mPerDeg * cosUB n * (dlonOf n i / s) :=
+    mul_le_mul_of_nonneg_left hB (mul_nonneg hK.le hc)
+  refine ⟨e1, e2, ?_⟩
+  have n0 : 0 ≤ nsM dA := mul_nonneg hK.le a0
+  have w0 : 0 ≤ ewM n dB := mul_nonneg (mul_nonneg hK.le hc) b0
+  have s1 : nsM dA ^ 2 ≤ (mPerDeg * (dlat i / s)) ^ 2 := pow_le_pow_left₀ n0 e1 2
+  have s2 : ewM n dB ^ 2 ≤ (mPerDeg * cosUB n * (dlonOf n i / s)) ^ 2 := pow_le_pow_left₀ w0 e2 2
+  have s3 : (mPerDeg * cosUB n * (dlonOf n i / s)) ^ 2
+      ≤ (cosUB n + 1 / 2000000) * cosUB n * (mPerDeg * (dlonOf n i / s)) ^ 2 := by
+    have : (mPerDeg * cosUB n * (dlonOf n i / s)) ^ 2
+        = cosUB n * cosUB n * (mPerDeg * (dlonOf n i / s)) ^ 2 := by ring
+    rw [this]
+    apply mul_le_mul_of_nonneg_right _ (sq_nonneg _)
+    apply mul_le_mul_of_nonneg_right _ hc
+    linarith
+  unfold budget
+  linarith
+
+/-! ### the recovered lattice points of the airborne and the surface encoder -/
+
+theorem abs_le_90 {x : ℚ} (h : -90 ≤ x ∧ x ≤ 90) : |x| ≤ 90 := abs_le.mpr h
+
+open Real Rs1090.Proofs.Geo in
+/-- airborne: any `ro` within `Dlon/2^18` of `lon` (mod 360) next to `Rlat` is within `chordMax` metres -/
+theorem air_dist (i : Nat) (hi : i ≤ 1) (lat lon : ℚ) (hlat : -90 ≤ lat ∧ lat ≤ 90) (ro : ℚ) (k : ℤ)
+    (hro : |ro - (lon + 360 * k)| ≤ dlon i (rlat 17 i lat) / 262144) :
+    chordDist 6399594 (rad lat) (rad lon) (rad (rlat 17 i lat)) (rad ro)
+      ≤ ((chordMax (NL (rlat 17 i lat)) : ℚ) : ℝ) ∧
+    gcDist 6399594 (rad lat) (rad lon) (rad (rlat 17 i lat)) (rad ro)
+      ≤ ((chordMax (NL (rlat 17 i lat)) : ℚ) : ℝ) + 1 / 1000 := by
+  obtain ⟨h1, h59⟩ := NL_range (rlat 17 i lat)
+  have hA : |rlat 17 i lat - lat| ≤ dlat i / 262144 := by
+    rw [rlat_eq_recv]; exact recv17_err _ _ (dlat_pos i hi)
+  rw [dlon_eq_dlonOf] at hro
+  exact sphere_dist i hi 262144 le_rfl lat lon _ ro k (abs_le_90 hlat)
+    (abs_le_90 (rlat_range_air i hi lat hlat)) hA hro _ (chordMax_pos _).le
+    (le_trans (chordMax_le _) (by norm_num)) (budget_air _ h1 h59 i hi)
+
+open Real Rs1090.Proofs.Geo in
+/-- surface: a quarter of it -/
+theorem surf_dist (i : Nat) (hi : i ≤ 1) (lat lon : ℚ) (hlat : -90 ≤ lat ∧ lat ≤ 90) (ro : ℚ) (k : ℤ)
+    (hro : |ro - (lon + 360 * k)| ≤ dlon i (rlat 19 i lat) / 1048576) :
+    chordDist 6399594 (rad lat) (rad lon) (rad (rlat 19 i lat)) (rad ro)
+      ≤ ((chordMax (NL (rlat 19 i lat)) / 4 : ℚ) : ℝ) ∧
+    gcDist 6399594 (rad lat) (rad lon) (rad (rlat 19 i lat)) (rad ro)
+      ≤ ((chordMax (NL (rlat 19 i lat)) / 4 : ℚ) : ℝ) + 1 / 1000 := by
+  obtain ⟨h1, h59⟩ := NL_range (rlat 19 i lat)
+  have hA : |rlat 19 i lat - lat| ≤ dlat i / 1048576 := by
+    rw [rlat_eq_recv]; exact recv19_err _ _ (dlat_pos i hi)
+  rw [dlon_eq_dlonOf] at hro
+  have hc := chordMax_pos (NL (rlat 19 i lat))
+  have hc' := chordMax_le (NL (rlat 19 i lat))
+  refine sphere_dist i hi 1048576 (by norm_num) lat lon _ ro k (abs_le_90 hlat)
+    (abs_le_90 (rlat_range_surf i hi lat hlat)) hA hro _ (by linarith) (by linarith) ?_
+  rw [budget_surf]
+  have := budget_air _ h1 h59 i hi
+  calc budget (NL (rlat 19 i lat)) i 262144 / 16 ≤ chordMax (NL (rlat 19 i lat)) ^ 2 / 16 :=
+        div_le_div_of_nonneg_right this (by norm_num)
+    _ = (chordMax (NL (rlat 19 i lat)) / 4) ^ 2 := by ring
+
+end Rs1090.Proofs.Metres
